@@ -1048,6 +1048,42 @@ writelines = Spec(
             c.eq(e[1][1], c.argv('datatype'))) for e in c.events('write')]))])
 
 
+# ---- incoming WINDOW_ADJUST: the data the sending application wrote must still get out
+# RFC 4254 5.3: EOF from the peer only says that the PEER sends no more data; it keeps receiving, and keeps granting
+# window.  So an adjust is accepted in every receive state in which our send side may still hold data (open, and
+# after the peer's EOF: eof_pending / eof) and leads to the queued data being flushed - it is refused (ProtocolError,
+# which drops the connection and with it everything still queued) only when the peer has really closed the channel.
+ADJUST_ACCEPTED = ('open', 'eof_pending', 'eof')
+
+
+def adjust_malformed(c):
+    """the unread part of the packet is not exactly one uint32"""
+    _p, i, n = pkt(c)
+    return n - i != 4
+
+
+process_window_adjust = Spec(
+    PROP, 'channel', 'SSHChannel._process_window_adjust', self_class='SSHChannel', params=PKT_PARAMS,
+    classes=PKT_CLASSES, inline=dict(PACKET_INLINE), truthy=PACKET_TRUTHY,
+    stubs={'self._flush_send_buf': flush_send_contract},
+    requires=lambda c: z3.And(send_inv(c, new=False), packet_wf(c, c.argv('packet'))),
+    modifies=SEND_MOD,
+    ensures=[
+        ('adjust-accepted-only-while-the-peer-has-not-closed', lambda c: z3.Or(
+            *[c.old('_recv_state') == sv(x) for x in ADJUST_ACCEPTED])),
+        ('queued-data-flushed-as-far-as-the-new-window-allows', lambda c: z3.Or(
+            z3.Length(c.new('_send_buf')) == 0, c.new('_send_window') == 0)),
+        ('nothing-lost-or-duplicated', lambda c: K.conservation(c, c.old('ghost_emitted'), c.old('_send_buf'))),
+        ('class-inv', lambda c: send_inv(c)),
+    ],
+    raises={
+        # never refused while our side may still have data to send (this is what loses queued data otherwise)
+        'ProtocolError': lambda c: z3.And(
+            z3.Not(z3.Or(*[c.old('_recv_state') == sv(x) for x in ADJUST_ACCEPTED])),
+            unchanged(c, '_send_window', *SEND_FIELDS)),
+        'PacketDecodeError': lambda c: z3.And(adjust_malformed(c), unchanged(c, '_send_window', *SEND_FIELDS))})
+
+
 # ====================================================================== the stream API on top of data_received
 # "the receiving application sees exactly the byte sequence the sender wrote": applications that read through
 # SSHReader see it through SSHStreamSession.read / readuntil / readline.  Their delivery contracts (conservation of the
